@@ -9,3 +9,4 @@ import BloomVerif.Props.C17
 import BloomVerif.Props.C18
 import BloomVerif.Props.C19
 import BloomVerif.Props.C25
+import BloomVerif.Props.C26
